@@ -81,10 +81,14 @@ def run_chunk(job, tier, a, b, timeout_s):
             crashes.append({"seed": cur, "rc": rc, "kind": "worker_failed_without_seed", "stderr": err[-3000:], "_job": job.name, "_variant": job.variant, "workload": job.workload})
             break
         kind = FATAL_KIND.get(rc, "watchdog" if rc == -999 else ("signal" if rc < 0 else "exit_%d" % rc))
-        m = re.search(r"@@FATAL (\S+)", out)
+        m = re.search(r"@@FATAL (\S+)(.*)", out)
         if m and kind.startswith("exit"):
             kind = m.group(1).lower()
-        crashes.append({"seed": last_begin, "rc": rc, "kind": kind, "stderr": err[-6000:], "_job": job.name, "_variant": job.variant, "workload": job.workload, "focus": job.focus, "args": job.args, "env": job.env})
+        fatal_line = ("@@FATAL " + m.group(1) + m.group(2) + "\n") if m else ""
+        # keep the head of the sanitizer report (kind + first frames) and the tail
+        k0 = err.find("ERROR: "); k0 = k0 if k0 >= 0 else max(0, err.find("runtime error"))
+        err = fatal_line + err[max(0, k0 - 200):k0 + 5000] + ("\n...\n" + err[-1500:] if len(err) > k0 + 6500 else "")
+        crashes.append({"seed": last_begin, "rc": rc, "kind": kind, "stderr": err, "_job": job.name, "_variant": job.variant, "workload": job.workload, "focus": job.focus, "args": job.args, "env": job.env})
         cur = last_begin + 1
     return results, crashes
 
@@ -180,7 +184,7 @@ def replay_file(path, quiet=False):
         except OSError: pass
     if doc.get("crash_kind"):
         kind = FATAL_KIND.get(p.returncode, "signal" if p.returncode < 0 else "exit_%d" % p.returncode)
-        ok = (kind == doc["crash_kind"]) and (not doc.get("crash_sig") or doc["crash_sig"] in p.stderr)
+        ok = (kind == doc["crash_kind"]) and (not doc.get("crash_sig") or doc["crash_sig"] in (p.stderr + p.stdout))
         if not quiet:
             log("replay: exit=%d kind=%s expected=%s %s" % (p.returncode, kind, doc["crash_kind"], "REPRODUCED" if ok else "not reproduced"))
             log(p.stderr[-2500:])
@@ -204,7 +208,13 @@ def replay_file(path, quiet=False):
 def crash_signature(stderr):
     """Stable one-line signature of a sanitizer report: kind + first repo frame."""
     kind = ""
-    m = re.search(r"ERROR: AddressSanitizer: (\S+)", stderr) or re.search(r"runtime error: ([^\n]*)", stderr) or re.search(r"WARNING: ThreadSanitizer: ([^(\n]*)", stderr)
+    mt = re.search(r"@@FATAL TERMINATE what=(.*)", stderr)
+    if mt:
+        return "terminate", re.sub(r"[0-9]+", "N", mt.group(1))[:80]
+    ms = re.search(r"ERROR: AddressSanitizer: ([a-z\-]+|requested allocation size|hard rss limit[a-z ]*|allocator is out of memory)", stderr)
+    if ms and ms.group(1) not in ("SEGV",) and False:
+        pass
+    m = re.search(r"ERROR: AddressSanitizer: (requested allocation size|hard rss limit exhausted|allocator is out of memory|\S+)", stderr) or re.search(r"runtime error: ([^\n]*)", stderr) or re.search(r"WARNING: ThreadSanitizer: ([^(\n]*)", stderr)
     if m:
         kind = m.group(1).strip()
     frame = ""
@@ -242,7 +252,8 @@ def minimise_crash(job, tier, crash):
             except OSError: pass
         if q.returncode != crash["rc"]:
             return False
-        k, f = crash_signature(q.stderr)
+        mf = re.search(r"@@FATAL [^\n]*", q.stdout)
+        k, f = crash_signature((mf.group(0) + "\n" if mf else "") + q.stderr)
         return (k, f) == (want_kind, want_frame)
 
     if not dies(ops):
@@ -390,7 +401,7 @@ def run_property(prop, spec, tier, seed0):
     for r in results:
         fps.add(r["fingerprint"])
         if r.get("nontrivial"): nontrivial.add(r["fingerprint"])
-        for k, n in r.get("probes", {}).items(): probes[k] = probes.get(k, 0) + n
+        for k, n in r.get("probes", {}).items(): probes[k] = max(probes.get(k, 0), n) if (k.endswith("_max") or k == "enum_space") else probes.get(k, 0) + n
         for k, n in r.get("faults", {}).items(): faults[k] = faults.get(k, 0) + n
         sched.add(r.get("sched_hash")); steps += r.get("steps", 0); iters += r.get("iters", 0); simtime += r.get("sim_time", 0)
         pj = per_job.setdefault(r["_job"], {"plans": 0, "nontrivial": 0}); pj["plans"] += 1; pj["nontrivial"] += 1 if r.get("nontrivial") else 0
